@@ -13,7 +13,14 @@ def db_url(d):
     return "sqlite:///%s/.zorg/zorg.db" % d
 
 
+def fresh_process():
+    """Each CLI invocation is a fresh process: drop the per-process engine cache."""
+    from zorg.storage.sql import _engine
+    _engine.create_cached_engine.cache_clear()
+
+
 def db_create(d, update_whitelist=False):
+    fresh_process()
     from zorg.domain.messages import commands
     from zorg.service import messagebus
     from zorg.storage.sql import _engine
@@ -26,6 +33,7 @@ def db_create(d, update_whitelist=False):
 def db_reindex(d, paths=()):
     from zorg.domain.messages import commands
     from zorg.service import messagebus
+    fresh_process()
     d = Path(d)
     with quiet():
         messagebus.handle(d, db_url(d), [commands.ReindexDBCommand(d, paths=[Path(p) for p in paths])])
@@ -33,6 +41,7 @@ def db_reindex(d, paths=()):
 
 def execute(d, q):
     from zorg.service import swog
+    fresh_process()
     with quiet():
         return swog.execute(Path(d), db_url(d), q)
 
